@@ -40,6 +40,7 @@ var osToVos = map[string]bool{
 	"RemoveAll": true, "Rename": true, "Symlink": true, "Link": true,
 	"Mkdir": true, "MkdirAll": true, "Chmod": true, "Truncate": true,
 	"CreateTemp": true, "MkdirTemp": true, "Chtimes": true,
+	"Open": true, "ReadFile": true,
 }
 
 // os.X -> vproc.X (process seam).
@@ -427,7 +428,7 @@ func (fc *fileCtx) rewriteSelector(c *astutil.Cursor, n *ast.SelectorExpr) {
 			st.VprocRefs++
 		}
 	case "io/ioutil":
-		if name == "WriteFile" {
+		if name == "WriteFile" || name == "ReadFile" {
 			c.Replace(sel("vos", name))
 			fc.needVos, fc.changed = true, true
 			st.VosCalls++
